@@ -762,6 +762,10 @@ func genQuotaFile(t *rapid.T) (string, []string) {
 		if i > 0 {
 			parents = append(parents, fmt.Sprintf("C%d", i-1))
 		}
+		if i+1 < nc {
+			// a limit declared above the internal limit it names as parent: valid, merely unusual
+			parents = append(parents, fmt.Sprintf("C%d", i+1))
+		}
 		if messy {
 			parents = append(parents, fmt.Sprintf("C%d", i+1), "Ghost", fmt.Sprintf("C%d", i))
 		}
